@@ -1,22 +1,376 @@
 package verifrt
 
+// Native twin of the engine's baton scheduler (engine/interp/sched.go): the
+// same thread table, the same enabled-set computation, the same decision
+// points. It is installed only by the instrumented replay build (the replay
+// file says "sched": true); otherwise every entry point is a pass-through
+// and the thread API falls back to plain goroutines.
+
 import (
 	"fmt"
+	"reflect"
 	"runtime/debug"
 	"sync"
+	"time"
 )
 
-// Sequential native fall-back for the thread API (no scheduler installed):
-// Go starts a goroutine, WaitIdle waits for all of them. The deterministic
-// twin of the engine's scheduler lives in sched_native.go and takes over
-// when a replay carries a schedule.
+const (
+	stReady = iota
+	stBlocked
+	stDone
+	stTimer
+	stCancelled
+	stWaitIdle
+)
 
-var wg sync.WaitGroup
+type thr struct {
+	id     int
+	wake   chan struct{}
+	state  int
+	waitMu uintptr
+	fn     func()
+}
+
+type muState struct {
+	writer  *thr
+	readers map[*thr]int
+}
+
+type sched struct {
+	thr        []*thr
+	cur        *thr
+	mus        map[uintptr]*muState
+	timers     map[*time.Timer]*thr
+	killed     bool
+	aborted    bool
+	preempt    int
+	preemptOn  bool
+	decisions  []int
+	pos        int
+	idleTimers bool
+	deadlock   bool
+	panicMsg   string
+	panicStack string
+}
+
+var S *sched
+
+type schedAbort struct{}
+
+func startSched(decisions []int, preempt int) *sched {
+	s := &sched{mus: map[uintptr]*muState{}, timers: map[*time.Timer]*thr{}, decisions: decisions, preempt: preempt}
+	main := &thr{id: 0, wake: make(chan struct{}), state: stReady}
+	s.thr = []*thr{main}
+	s.cur = main
+	S = s
+	return s
+}
+
+func (s *sched) decideN(n int) int {
+	if n <= 1 {
+		return 0
+	}
+	d := 0
+	if s.pos < len(s.decisions) {
+		d = s.decisions[s.pos]
+	}
+	s.pos++
+	if d >= n {
+		d = 0
+	}
+	return d
+}
+
+func (s *sched) spawn(fn func(), state int) *thr {
+	t := &thr{id: len(s.thr), wake: make(chan struct{}), state: state, fn: fn}
+	s.thr = append(s.thr, t)
+	go func() {
+		<-t.wake
+		if s.killed {
+			return
+		}
+		defer func() {
+			if s.killed {
+				return
+			}
+			if p := recover(); p != nil {
+				if s.panicMsg == "" {
+					s.panicMsg = fmt.Sprint(p)
+					s.panicStack = string(debug.Stack())
+				}
+				t.state = stDone
+				s.abortToMain()
+				return
+			}
+			t.state = stDone
+			s.handOver()
+		}()
+		t.fn()
+	}()
+	return t
+}
+
+func (s *sched) abortToMain() {
+	s.aborted = true
+	m := s.thr[0]
+	if m.state == stDone {
+		return
+	}
+	m.state = stReady
+	s.cur = m
+	m.wake <- struct{}{}
+}
+
+func (s *sched) enabled(includeTimers bool) []*thr {
+	var out []*thr
+	for _, t := range s.thr {
+		if t == s.cur {
+			continue
+		}
+		if t.state == stReady || (includeTimers && t.state == stTimer) {
+			out = append(out, t)
+		}
+	}
+	return out
+}
+
+func (s *sched) pickNext() *thr {
+	en := s.enabled(s.idleTimers)
+	if len(en) == 0 {
+		if m := s.thr[0]; m.state == stWaitIdle {
+			return m
+		}
+		return nil
+	}
+	k := 0
+	if len(en) > 1 {
+		k = s.decideN(len(en))
+	}
+	return en[k]
+}
+
+func (s *sched) handOver() {
+	next := s.pickNext()
+	if next == nil {
+		s.deadlock = true
+		s.abortToMain()
+		return
+	}
+	s.start(next)
+}
+
+func (s *sched) start(t *thr) {
+	if t.state == stTimer || t.state == stWaitIdle {
+		t.state = stReady
+	}
+	s.cur = t
+	t.wake <- struct{}{}
+}
+
+func (s *sched) switchTo(next *thr) {
+	cur := s.cur
+	s.start(next)
+	<-cur.wake
+	if s.killed {
+		select {} // the run is over; park for good
+	}
+	if s.aborted && cur.id == 0 {
+		panic(schedAbort{})
+	}
+}
+
+func (s *sched) yield() {
+	if s.preempt <= 0 || !s.preemptOn {
+		return
+	}
+	en := s.enabled(true)
+	if len(en) == 0 {
+		return
+	}
+	k := s.decideN(len(en) + 1)
+	if k == 0 {
+		return
+	}
+	s.preempt--
+	s.switchTo(en[k-1])
+}
+
+func (s *sched) block() {
+	next := s.pickNext()
+	if next == nil {
+		s.deadlock = true
+		if s.cur.id == 0 {
+			panic(schedAbort{})
+		}
+		s.abortToMain()
+		<-s.cur.wake
+		select {}
+	}
+	s.switchTo(next)
+}
+
+func (s *sched) mu(k uintptr) *muState {
+	st := s.mus[k]
+	if st == nil {
+		st = &muState{readers: map[*thr]int{}}
+		s.mus[k] = st
+	}
+	return st
+}
+
+func key(mu any) uintptr { return reflect.ValueOf(mu).Pointer() }
+
+// ---- entry points used by the instrumented source
+
+func BeforeLock(mu any, read bool) {
+	s := S
+	if s == nil {
+		return
+	}
+	k := key(mu)
+	s.yield()
+	st := s.mu(k)
+	for {
+		free := st.writer == nil
+		if !read && free {
+			for _, n := range st.readers {
+				if n > 0 {
+					free = false
+				}
+			}
+		}
+		if free {
+			break
+		}
+		cur := s.cur
+		cur.state, cur.waitMu = stBlocked, k
+		s.block()
+	}
+	if read {
+		st.readers[s.cur]++
+	} else {
+		st.writer = s.cur
+	}
+}
+
+func AfterLock(mu any, read bool) {}
+
+func AfterUnlock(mu any, read bool) {
+	s := S
+	if s == nil {
+		return
+	}
+	k := key(mu)
+	st := s.mu(k)
+	if read {
+		if st.readers[s.cur] > 0 {
+			st.readers[s.cur]--
+		} else {
+			for t, n := range st.readers {
+				if n > 0 {
+					st.readers[t]--
+					break
+				}
+			}
+		}
+	} else {
+		st.writer = nil
+	}
+	for _, t := range s.thr {
+		if t.state == stBlocked && t.waitMu == k {
+			t.state, t.waitMu = stReady, 0
+		}
+	}
+}
+
+func DeferredUnlock(mu any, unlock func(), read bool) {
+	unlock()
+	AfterUnlock(mu, read)
+}
+
+var bg sync.WaitGroup
+
+// GoStmt replaces a `go f()` statement of the code under test.
+func GoStmt(f func()) {
+	s := S
+	if s == nil {
+		bg.Add(1)
+		go func() {
+			defer bg.Done()
+			f()
+		}()
+		return
+	}
+	s.spawn(f, stReady)
+	s.yield()
+}
+
+func AfterFunc(d time.Duration, f func()) *time.Timer {
+	s := S
+	if s == nil {
+		return time.AfterFunc(d, f)
+	}
+	h := time.AfterFunc(1000*time.Hour, func() {})
+	s.timers[h] = s.spawn(f, stTimer)
+	s.yield()
+	return h
+}
+
+// StopTimer replaces x.Stop(): timers created through AfterFunc are scheduler objects.
+func StopTimer(x any) bool {
+	if t, ok := x.(*time.Timer); ok {
+		s := S
+		if s == nil {
+			return t.Stop()
+		}
+		if t == nil {
+			panic("runtime error: invalid memory address or nil pointer dereference")
+		}
+		if th := s.timers[t]; th != nil {
+			if th.state == stTimer {
+				th.state = stCancelled
+				return true
+			}
+			return false
+		}
+		return t.Stop()
+	}
+	if t, ok := x.(*time.Ticker); ok {
+		t.Stop()
+		return true
+	}
+	// some other type with a Stop method
+	m := reflect.ValueOf(x).MethodByName("Stop")
+	if m.IsValid() {
+		r := m.Call(nil)
+		if len(r) == 1 && r[0].Kind() == reflect.Bool {
+			return r[0].Bool()
+		}
+	}
+	return false
+}
+
+// ---- harness thread API
 
 func runHarness(fn func(), r *Replay, out *Outcome) {
+	var s *sched
+	if r.Sched {
+		s = startSched(r.Schedule, r.Params["preempt"])
+	}
 	defer func() {
-		if p := recover(); p != nil {
-			if _, ok := p.(assumeFailed); ok {
+		p := recover()
+		if s != nil {
+			out.Deadlock = s.deadlock
+			out.SchedUsed = s.pos
+			if s.panicMsg != "" && out.Panic == "" {
+				out.Panic, out.PanicStack = s.panicMsg, s.panicStack
+			}
+			s.killed = true
+			S = nil
+		}
+		if p != nil {
+			switch p.(type) {
+			case assumeFailed, schedAbort:
 				return
 			}
 			out.Panic = fmt.Sprint(p)
@@ -26,7 +380,14 @@ func runHarness(fn func(), r *Replay, out *Outcome) {
 	fn()
 }
 
+var wg sync.WaitGroup
+
+// Go starts a harness thread.
 func Go(fn func()) {
+	if s := S; s != nil {
+		s.spawn(fn, stReady)
+		return
+	}
 	wg.Add(1)
 	go func() {
 		defer wg.Done()
@@ -34,13 +395,104 @@ func Go(fn func()) {
 	}()
 }
 
-func Yield()              {}
-func WaitIdle()           { wg.Wait() }
-func FireTimers()         { wg.Wait() }
-func PreemptOn()          {}
-func PreemptOff()         {}
-func PendingTimers() int  { return 0 }
-func BlockedThreads() int { return 0 }
-func Tick()               {}
-func TickerCount() int    { return 0 }
+func Yield() {
+	if s := S; s != nil {
+		s.yield()
+	}
+}
+
+func (s *sched) waitIdle(timers bool) {
+	old := s.idleTimers
+	s.idleTimers = timers
+	defer func() { s.idleTimers = old }()
+	for {
+		en := s.enabled(timers)
+		if len(en) == 0 {
+			return
+		}
+		cur := s.cur
+		cur.state = stWaitIdle
+		next := s.pickNext()
+		s.switchTo(next)
+		cur.state = stReady
+	}
+}
+
+// WaitIdle runs the other threads until none is ready (armed timers do not fire).
+func WaitIdle() {
+	if s := S; s != nil {
+		s.waitIdle(false)
+		return
+	}
+	wg.Wait()
+	bg.Wait()
+	time.Sleep(20 * time.Millisecond) // goroutines started by uninstrumented code
+}
+
+// RunReadyFIFO runs the ready threads to completion in spawn order (no scheduling decision).
+func RunReadyFIFO() {
+	s := S
+	if s == nil {
+		WaitIdle()
+		return
+	}
+	for {
+		en := s.enabled(false)
+		if len(en) == 0 {
+			return
+		}
+		cur := s.cur
+		cur.state = stWaitIdle
+		s.switchTo(en[0])
+		cur.state = stReady
+	}
+}
+
+// FireTimers is WaitIdle with armed timers firing as well, in every order.
+func FireTimers() {
+	if s := S; s != nil {
+		s.waitIdle(true)
+		return
+	}
+	WaitIdle()
+}
+
+func PreemptOn() {
+	if s := S; s != nil {
+		s.preemptOn = true
+	}
+}
+
+func PreemptOff() {
+	if s := S; s != nil {
+		s.preemptOn = false
+	}
+}
+
+func PendingTimers() int {
+	n := 0
+	if s := S; s != nil {
+		for _, t := range s.thr {
+			if t.state == stTimer {
+				n++
+			}
+		}
+	}
+	return n
+}
+
+func BlockedThreads() int {
+	n := 0
+	if s := S; s != nil {
+		for _, t := range s.thr {
+			if t.state == stBlocked {
+				n++
+			}
+		}
+	}
+	return n
+}
+
+func Tick()                    {}
+func TickerCount() int         { return 0 }
 func TickerPeriod(i int) int64 { return 0 }
